@@ -96,7 +96,7 @@ env_proof! {
     unwind = 6, rot = ghost, crc = off,
     fn c11_rotation() {
         let cfg = mk_config(None, None, None, None);
-        let mut rl: RaftLog<KTypes> = open_empty(cfg);
+        let mut rl: RaftLog<RTypes> = open_empty(cfg);
         let old_id = rl.wal.open.chunk.chunk_id();
         let v: Id = kani::any();
         unsafe { crate::raft_log::wal::kani_h_a_wal::ROTATE_NOW = true; }
